@@ -8,26 +8,12 @@ import Secp.Proofs.FieldBridge
   fieldSetByteSliceGen) equal the model primitives of Spec/Field.lean, Spec/Basic.lean and
   Model/Der.lean.
 -/
-namespace Secp.Proofs.DriversWrap
+namespace Secp.Proofs.DriversWrapField
 open Secp.Spec Secp.Model
 
 /-! ### the one-liners -/
 
-theorem scalarMul_regenerated (s v : Nat) : Secp.Gen.Drivers.scalarMul s v = nmul s v := rfl
-theorem scalarAdd_regenerated (s v : Nat) : Secp.Gen.Drivers.scalarAdd s v = nadd s v := rfl
-theorem scalarNegate_regenerated (s : Nat) : Secp.Gen.Drivers.scalarNegate s = nneg s := rfl
-theorem scalarSquare_regenerated (s : Nat) : Secp.Gen.Drivers.scalarSquare s = nmul s s := rfl
-theorem scalarSquareVal_regenerated (s v : Nat) : Secp.Gen.Drivers.scalarSquareVal s v = nmul v v := rfl
-theorem scalarInverseNonConst_regenerated (s : Nat) : Secp.Gen.Drivers.scalarInverseNonConst s = ninv s := rfl
-
 /-! ### ModNScalar.Bytes -/
-
-theorem scalarBytes_regenerated (s : Nat) : Secp.Gen.Drivers.scalarBytes s = be32 s := by
-  have hl : (be32 s).length = 32 := Der.be32_length s
-  unfold Secp.Gen.Drivers.scalarBytes
-  simp only [List.take_zero, List.nil_append, Nat.zero_add]
-  rw [List.take_of_length_le (Nat.le_of_eq hl)]
-  simp
 
 /-! ### the two `copy` calls of SetByteSlice -/
 
@@ -71,21 +57,17 @@ private theorem beNat_pad_take (c : Bytes) (hc : c.length ≤ 32) :
 
 /-! ### ModNScalar.SetByteSlice -/
 
-theorem scalarSetByteSlice_regenerated (s : Nat) (b : Bytes) (hb : b.length < 2^32) :
-    Secp.Gen.Drivers.scalarSetByteSliceGen s b
-      = ((scalarSetByteSlice b).2, (scalarSetByteSlice b).1) := by
+/-! ### FieldVal.SetByteSlice -/
+
+theorem fieldSetByteSlice_regenerated (f : Nat) (b : Bytes) (hb : b.length < 2^32) :
+    Secp.Gen.Drivers.fieldSetByteSliceGen f b
+      = (decide (beNat (b.take 32) ≥ P), beNat (b.take 32)) := by
   have hc := take32_length_le b
   have hpad := pad_eq (b.take 32) hc
-  unfold Secp.Gen.Drivers.scalarSetByteSliceGen
+  unfold Secp.Gen.Drivers.fieldSetByteSliceGen
   simp only [trunc_eq b hb] at hpad ⊢
-  rw [hpad]
-  have hv : beNat ((List.replicate (32 - (b.take 32).length) (0 : UInt8) ++ b.take 32).take 32)
-      = beNat (b.take 32) := beNat_pad_take _ hc
-  unfold scalarSetByteSlice
-  simp only [hv]
-  by_cases h : beNat (b.take 32) ≥ N <;> simp [h]
-
-/-! ### FieldVal.SetByteSlice -/
+  rw [hpad, Bip32.beNat_zeros_append]
+  by_cases h : beNat (b.take 32) ≥ P <;> simp [h]
 
 /-! ### ModNScalar.InverseValNonConst -/
 
@@ -96,19 +78,5 @@ private theorem setByteSlice_minBytes {x : Nat} (hx : x < N) :
   simp only [Bip32.minBytes_take32 hx32]
   rw [if_neg (Nat.not_le.2 hx)]
 
-theorem scalarInverseValNonConst_regenerated (s v : Nat) (hv : v < N) :
-    Secp.Gen.Drivers.scalarInverseValNonConst s v = ninv v := by
-  have hv32 : v < 256 ^ 32 := Nat.lt_trans hv Bip32.N_lt_256_32
-  unfold Secp.Gen.Drivers.scalarInverseValNonConst
-  simp only [Bip32.beNat_be32_lt hv32]
-  by_cases h0 : (v % N == 0) = true
-  · rw [if_pos h0, setByteSlice_minBytes hv]
-    have hz : v = 0 := by
-      have := beq_iff_eq.1 h0
-      rwa [Nat.mod_eq_of_lt hv] at this
-    subst hz
-    exact (by decide +kernel : (0 : Nat) = ninv 0)
-  · rw [if_neg h0, setByteSlice_minBytes (ninv_lt v)]
-
-end Secp.Proofs.DriversWrap
+end Secp.Proofs.DriversWrapField
 
